@@ -225,11 +225,22 @@ class SymBytes(object):
         return repr(self)
 
     def startswith(self, p, *a):
+        if isinstance(p, tuple):
+            # CPython: true if any of the prefixes matches (tested in order)
+            for q in p:
+                if self.startswith(q, *a):
+                    return True
+            return False
         p = _items_of(p)
         return SymBytes(self.items[:len(p)], False)._eq(_wrap(p, False)) \
             if len(self.items) >= len(p) else False
 
     def endswith(self, p):
+        if isinstance(p, tuple):
+            for q in p:
+                if self.endswith(q):
+                    return True
+            return False
         p = _items_of(p)
         return SymBytes(self.items[len(self.items) - len(p):], False)._eq(
             _wrap(p, False)) if len(self.items) >= len(p) else False
